@@ -236,3 +236,11 @@ Definition malformed_failures : list (str * str * str) :=
      flat_map (fun w => flat_map (fun r => if lex_one_diag name w r then [] else [(fam, w, r)]) m_rests) ws) malformed
   ++ flat_map (fun f => let '(fam, name, ws) := f in
      flat_map (fun wr => if lex_one_diag name (fst wr) (snd wr) then [] else [(fam, fst wr, snd wr)]) ws) malformed_open.
+
+(* ---------------------------------------------------------------- the suffix grammar, INDEPENDENT of the tool's tables *)
+(* integer suffix = [uU]? ( l | L | ll | LL | z | Z | wb | WB | i64 | I64 )? in either order (the supported extensions of the
+   property text); float suffix at least f F l L d D.  The tool's own tables (Gen.LexTables) are compared with these. *)
+Definition spec_us : list str := [s "u"; s "U"].
+Definition spec_ws : list str := [s "l"; s "L"; s "ll"; s "LL"; s "z"; s "Z"; s "wb"; s "WB"; s "i64"; s "I64"].
+Definition spec_int_suffixes : list str := [[]] ++ spec_us ++ spec_ws ++ cat spec_us spec_ws ++ cat spec_ws spec_us.
+Definition spec_float_suffixes : list str := [[]; s "f"; s "F"; s "l"; s "L"; s "d"; s "D"].
